@@ -195,7 +195,9 @@ var underlayGens = []ugen{
 	}},
 	{"loop6", clsPrivate, func(r *rand.Rand) string { return fmt.Sprintf("/ip6/::1/tcp/%d", port(r)) }},
 	// grey areas: in the workload, counted, never judged
-	{"grey-dns", clsGrey, func(r *rand.Rand) string { return fmt.Sprintf("/dns4/node%d.example.org/tcp/%d", r.Intn(1000), port(r)) }},
+	{"grey-dns", clsGrey, func(r *rand.Rand) string {
+		return fmt.Sprintf("/dns4/node%d.example.org/tcp/%d", r.Intn(1000), port(r))
+	}},
 	{"grey-cgnat", clsGrey, func(r *rand.Rand) string {
 		return fmt.Sprintf("/ip4/100.%d.%d.%d/tcp/%d", 64+r.Intn(64), r.Intn(256), 1+r.Intn(254), port(r))
 	}},
@@ -262,7 +264,7 @@ type setSpec struct {
 	pGrey         float64
 	pNoBook       float64 // share of kademlia peers missing from the address book
 	nFocus        int
-	nHot          int // number of "hot" orders around each focus target
+	nHot          int  // number of "hot" orders around each focus target
 	dense         bool // every overlay sits at a hot order of a focus target
 }
 
@@ -992,10 +994,18 @@ func TestDirectedLimits(t *testing.T) {
 	run.Rule("directed: sets {1 connected}, {1 known}, {1 connected + 1 known}, {3+3}, {40+40} whose peers all match the single requested order; every limit 0..40 x AllowPrivateCIDRs on/off x requester (public outsider / a connected peer); distinct = same shape key as the random test")
 	vdb.Register()
 	sizes := [][2]int{{1, 0}, {0, 1}, {1, 1}, {3, 3}, {40, 40}}
-	reps := run.N(1, 4)
+	reps := run.N(1, 10)
 	for rep := 0; rep < reps; rep++ {
 		for zi, sz := range sizes {
 			var set *peerSet
+			sz, zi := sz, zi
+			mk := func() *peerSet {
+				sr := run.RandFor(fmt.Sprintf("directed/%d/%d", rep, zi))
+				// one focus, one hot order, every peer there
+				sp := setSpec{nConn: sz[0], nKnown: sz[1], nFocus: 1, nHot: 1, pPrivate: 0.3, dense: true}
+				run.Stat("peer_sets", 1)
+				return buildSet(t, sr, sp)
+			}
 			for limit := int32(0); limit <= 40; limit++ {
 				for variant := 0; variant < 4; variant++ {
 					id := fmt.Sprintf("rep/%d/size/%d+%d/limit/%d/v/%d", rep, sz[0], sz[1], limit, variant)
@@ -1004,11 +1014,7 @@ func TestDirectedLimits(t *testing.T) {
 						continue
 					}
 					if set == nil {
-						sr := run.RandFor(fmt.Sprintf("directed/%d/%d", rep, zi))
-						// one focus, one hot order, every peer there
-						sp := setSpec{nConn: sz[0], nKnown: sz[1], nFocus: 1, nHot: 1, pPrivate: 0.3, dense: true}
-						set = buildSet(t, sr, sp)
-						run.Stat("peer_sets", 1)
+						set = mk()
 					}
 					q := &request{limit: limit, target: set.focus[0], targetSrc: "focus", orders: []int32{int32(set.hot[0][0])}, ordMode: "single",
 						allowPriv: variant&1 == 1, requester: set.outsiders[0]}
@@ -1024,6 +1030,34 @@ func TestDirectedLimits(t *testing.T) {
 					run.Stat("directed_requests", 1)
 					c.End("directed/"+shape, nontriv)
 				}
+			}
+			// outside the stated quantifier (own finding keys): a negative limit, and order
+			// values that are not an order at all but equal the peers' order modulo 256
+			for xi, x := range []struct {
+				limit  int32
+				orders []int32
+				extra  string
+			}{{-1, nil, "negative-limit"}, {5, []int32{256, 512}, "order-values-outside-0..255"}} {
+				c := run.Begin(fmt.Sprintf("rep/%d/size/%d+%d/extra/%d", rep, sz[0], sz[1], xi), nil)
+				if c == nil {
+					continue
+				}
+				if set == nil {
+					set = mk()
+				}
+				q := &request{limit: x.limit, target: set.focus[0], targetSrc: "focus", orders: []int32{int32(set.hot[0][0])}, ordMode: "single",
+					requester: set.outsiders[0], extra: x.extra}
+				if x.orders != nil {
+					q.ordMode = "non-order-values"
+					q.orders = []int32{x.orders[0] + int32(set.hot[0][0]), x.orders[1] + int32(set.hot[0][0])}
+				}
+				reply, ok := set.exec(t, c, q)
+				if !ok {
+					c.End("panic", true)
+					continue
+				}
+				shape, nontriv := set.judge(run, c, q, reply)
+				c.End("directed/"+shape, nontriv)
 			}
 			if set != nil {
 				set.close()
@@ -1042,7 +1076,7 @@ func TestRandomRequests(t *testing.T) {
 		"the kademlia instance is not started: no manage loop, no dial-outs, so the peer sets are fixed while requests run",
 		"~7% of requests are outside the stated quantifier (negative limit, limit > 40, order values outside 0..255); they get their own finding keys")
 	vdb.Register()
-	nSets := run.N(40, 400)
+	nSets := run.N(40, 1500)
 	const perSet = 50
 	for si := 0; si < nSets; si++ {
 		var set *peerSet
